@@ -840,20 +840,6 @@ theorem gen_kron_order_grid_matches_full_grid [Monoid α] [Zero α] (Ks : List (
   rw [(gen_grid_forward_eq_gridKron Ks).2]
   exact grid_kron_order Ks is js hi hj
 
-/-- one grid dimension of a stationary kernel `k(x, y) = f(x − y)` on the equally spaced grid `g₀ + l·δ`, `l < n` -/
-structure GridDim (α : Type) where
-  n : ℕ
-  f : α → α
-  g0 : α
-  δ : α
-
-/-- the row `k(g₀, g_l)` that `GridKernel.forward` evaluates under `use_toeplitz` -/
-def GridDim.row [Field α] (d : GridDim α) : Σ n : ℕ, Fin n → α := ⟨d.n, fun l => d.f (d.g0 - (d.g0 + l.1 * d.δ))⟩
-
-/-- the dense one-dimensional kernel matrix `k(g_i, g_j)` -/
-def GridDim.dense [Field α] (d : GridDim α) : Sq α :=
-  ⟨d.n, DMat.ofMatrix (Matrix.of fun i j : Fin d.n => d.f ((d.g0 + i.1 * d.δ) - (d.g0 + j.1 * d.δ)))⟩
-
 /-- the generated Toeplitz branch of `GridKernel.forward`: for even `f` the factors built from the first rows are the dense
 per-dimension kernel matrices, so (with the two order theorems) the use_toeplitz result is the same matrix as the dense one,
 in both modes and in the `last_dim_is_batch` batch of factors. -/
